@@ -120,3 +120,16 @@ Example ex_cycle_refused :
   calc (enough_fuel ex_cycle) ex_cycle ex_pop (init []) 0 (Month, (2018, 1, 1)%Z, 1%Z)
   = (init [], Err ECycle).
 Proof. vm_compute. reflexivity. Qed.
+
+(** Termination: the fuel used by every request is never exhausted, for EVERY rule system
+    (statements and explanation in props/EngineFuel.v, re-checked with this file). *)
+From Verif Require EngineFuel.
+Theorem fuel_never_exhausted : forall sy pp s v p, stack s = [] ->
+  snd (calc (enough_fuel sy) sy pp s v p) <> Err EFuel.
+Proof. exact EngineFuel.enough_fuel_suffices. Qed.
+Print Assumptions fuel_never_exhausted.
+
+Theorem more_fuel_changes_nothing : forall sy pp f s rs, stack s = [] -> enough_fuel sy <= f ->
+  run f sy pp s rs = run (enough_fuel sy) sy pp s rs.
+Proof. exact EngineFuel.run_fuel_irrelevant. Qed.
+Print Assumptions more_fuel_changes_nothing.
